@@ -220,6 +220,9 @@ def snap_value(v):
         return ("dict", tuple((repr(k), snap_value(x)) for k, x in v.items()))
     if callable(v) and not isinstance(v, type):
         return ("callable", type(v).__name__, id(v))
+    if hasattr(v, "instructions") and isinstance(getattr(v, "instructions"), list):  # a sub-program held as a parameter
+        sp = snap_program(v)
+        return ("program", id(v), sp["n"], sp["list_id"], tuple((i["type"], i["id"], i["modes"], i["params"], i["condition"]) for i in sp["ins"]))
     return (type(v).__name__, repr(v))
 
 
@@ -302,9 +305,29 @@ def diff_program(before, after):
                     elif tb == "nd":
                         what = "identity" if bk[k][5] != ak[k][5] else "bytes"
                         out.append(("instruction.params:ndarray-" + what, "#%d %s.%s" % (i, b["type"], k)))
+                    elif tb == "list" and any(isinstance(x, tuple) and x and x[0] == "program" for x in bk[k][1]):
+                        out.append(_diff_subprograms(i, b["type"], k, bk[k][1], ak[k][1]))
                     else:
                         out.append(("instruction.params:value", "#%d %s.%s: %s -> %s" % (i, b["type"], k, str(bk[k])[:60], str(ak[k])[:60])))
     return out
+
+
+def _diff_subprograms(i, typ, k, before, after):
+    """First difference between two snapshots of a list of sub-programs held as a parameter."""
+    if len(before) != len(after):
+        return ("instruction.params:subprograms", "#%d %s.%s: %d -> %d sub-programs" % (i, typ, k, len(before), len(after)))
+    for j, (pb, pa) in enumerate(zip(before, after)):
+        if pb == pa:
+            continue
+        if pb[:4] != pa[:4]:
+            return ("instruction.params:subprograms", "#%d %s.%s[%d]: sub-program replaced or its instruction list changed (%d -> %d instructions)" % (i, typ, k, j, pb[2], pa[2]))
+        for n, (ib, ia) in enumerate(zip(pb[4], pa[4])):
+            if ib == ia:
+                continue
+            what = "replaced" if ib[:2] != ia[:2] else "modes %s -> %s" % (ib[2][1], ia[2][1]) if ib[2] != ia[2] else "parameters changed" if ib[3] != ia[3] else "condition changed"
+            field = "modes" if ib[:2] == ia[:2] and ib[2] != ia[2] else "value"
+            return ("instruction.params:subprogram-" + field, "#%d %s.%s[%d] instruction %d (%s): %s" % (i, typ, k, j, n, ib[0], what))
+    return ("instruction.params:subprograms", "#%d %s.%s" % (i, typ, k))
 
 
 # ------------------------------------------------------------------ connector seam
